@@ -2,6 +2,7 @@
 From Coq Require Import List NArith Bool.
 Import ListNotations.
 From SV Require Import Escape EscapeProofs Rules RulesProofs.
+From SV Require Import CramGlobProofs.
 Local Open Scope N_scope.
 
 (* equal: the expression followed by a newline (for an expression that does not itself end in a newline) *)
@@ -37,9 +38,19 @@ Example C04_instances :
   /\ m_equal [102] [102; 10] = true /\ m_equal [102] [102] = false /\ m_noeol [102] [102] = true.
 Proof. repeat split; vm_compute; reflexivity. Qed.
 
+(* the Cram flavour of glob (Cram documents; glob_cram.rs translates the pattern into a regular expression): the
+   translated expression matches a whole line exactly when the line is an instance of the pattern -- `*` any run of
+   characters, `?` exactly one, `\*` `\?` `\\` the literal character, a lone backslash itself -- no LF inside *)
+Theorem C04_cram_glob : forall p s, full (cram_glob_re p) s = true <-> CGMatch p s.
+Proof. exact cram_glob_spec. Qed.
+Example C04_cram_glob_instance :     (* a\*b?  matches  a*bX  and not  aXbX *)
+  full (cram_glob_re [97; 92; 42; 98; 63]) [97; 42; 98; 88] = true /\ full (cram_glob_re [97; 92; 42; 98; 63]) [97; 88; 98; 88] = false.
+Proof. split; vm_compute; reflexivity. Qed.
+
 Print Assumptions C04_equal.
 Print Assumptions C04_no_eol.
 Print Assumptions C04_escaped.
 Print Assumptions C04_glob.
 Print Assumptions C04_regex_whole_line.
 Print Assumptions C04_regex_rule_partial.
+Print Assumptions C04_cram_glob.
